@@ -247,6 +247,19 @@ func (a *NilAnalysis) newGraph(fn *ssa.Function, at ssa.Instruction) *cgraph {
 			}
 		}
 	}
+	// registers made equal to another one bring their definitional facts along
+	for _, regs := range byLoc {
+		if len(regs) < 2 {
+			continue
+		}
+		for _, r := range regs {
+			if strings.HasPrefix(r, "v:") {
+				if v := valueByName(fn, r[2:]); v != nil && isIntegerT(v.Type()) {
+					g.define(v, 2)
+				}
+			}
+		}
+	}
 	for k := range f {
 		switch {
 		case strings.HasPrefix(k, "N|"):
@@ -336,6 +349,38 @@ func (g *cgraph) define(v ssa.Value, depth int) {
 		}
 	case *ssa.Parameter:
 		g.defineParam(x, key)
+	case *ssa.TypeAssert:
+		// integer taken out of a BiMap table: bounded by the table's constants
+		if isIntegerT(x.Type()) {
+			if call, inv, ok := biMapLookup(x.X); ok {
+				if srcs, ok := a.p.biMapSourcesOf(call.Call.Args[0], 0); ok {
+					lo, hi, n := infW, -infW, 0
+					for _, ch := range srcs {
+						for _, pr := range ch {
+							v := pr.v
+							if inv {
+								v = pr.k
+							}
+							if c, ok := constInt(v); ok {
+								n++
+								if c < lo {
+									lo = c
+								}
+								if c > hi {
+									hi = c
+								}
+							} else if isIntegerT(v.Type()) {
+								n = -1 << 20
+							}
+						}
+					}
+					if n > 0 {
+						g.le(key, zeroTerm, hi)
+						g.le(zeroTerm, key, -lo)
+					}
+				}
+			}
+		}
 	}
 }
 
